@@ -20,7 +20,7 @@ RESULTS = os.path.join(V, "selftest_results.json")
 
 FIXES = [
     # (commit subject prefix, id, properties whose quick check must catch the reverted fix, regress file)
-    ("fix: charge the clamped price", "D2", ["C01", "C02", "C07"], "regress/C01/d2-modsvc-zero-price.json"),
+    ("fix: charge the clamped price", "D2", ["C01", "C02", "C06", "C07"], "regress/C01/d2-modsvc-zero-price.json"),
     ("fix: reject a module service call when", "D13", ["C01"], "regress/C01/d13-modsvc-unavailable-binding.json"),
     ("fix: do not issue a batch after the fee", "D1", ["C01", "C02", "C06", "C09"], "regress/C01/d1-unpaid-batch-after-failed-deduction.json"),
     ("fix: a module service call issues exactly", "D9", ["C10", "C16"], None),
